@@ -1008,6 +1008,29 @@ fn handle(st: &mut St, line: &str) -> Result<String, String> {
             let e = h.estimate_count();
             Ok(format!("ok {}", e))
         }
+        "HLB" => {
+            // statistical envelope for large cardinalities: n elements generated on the fly (splitmix64, four words per
+            // element: uniformly random 32-byte elements, no giant buffer), offset; returns estimate and registers
+            let n: usize = a[0].parse().map_err(|_| "n".to_string())?;
+            let mut x: u64 = a[1].parse().map_err(|_| "seed".to_string())?;
+            let off: usize = a[2].parse().map_err(|_| "off".to_string())?;
+            let mut next = move || {
+                x = x.wrapping_add(0x9E3779B97F4A7C15);
+                let mut z = x;
+                z = (z ^ (z >> 30)).wrapping_mul(0xBF58476D1CE4E5B9);
+                z = (z ^ (z >> 27)).wrapping_mul(0x94D049BB133111EB);
+                z ^ (z >> 31)
+            };
+            let mut h = Hll8::new();
+            let mut el = [0u8; 32];
+            for _ in 0..n {
+                for w in 0..4 {
+                    el[8 * w..8 * w + 8].copy_from_slice(&next().to_le_bytes());
+                }
+                h.add_element(&el, off).map_err(|_| "add".to_string())?;
+            }
+            Ok(format!("ok {} {}", h.estimate_count(), h.to_hex_string()))
+        }
         "HLS" => {
             // statistical envelope: n random elements from a seeded xorshift, offset; returns estimate
             let n: usize = a[0].parse().map_err(|_| "n".to_string())?;
